@@ -136,6 +136,35 @@ def replay_once(prop, desc, alt):
             p.kill()
 
 
+def selftest(mod, prop, a, alt, quiet=False):
+    """Same jobs, two shard layouts: per-job event-log digests and verdicts must be identical."""
+    import copy
+    import random
+
+    jobs = mod.plan(a.tier, a.seed)
+    random.Random(a.seed).shuffle(jobs)  # a mix of all job modes
+    jobs = jobs[: (a.limit or 200)]
+    for j in jobs:
+        j["noshrink"] = True
+    maps = []
+    for shards in (a.shards, 5):
+        res, fatals, _ = run_jobs(copy.deepcopy(jobs), shards, 3600, alt, subprocess.DEVNULL)
+        m = {}
+        for r in res:
+            if r.get("fatal"):
+                m[json.dumps(r["job"], sort_keys=True)] = "FATAL"
+                continue
+            k = json.dumps({x: r["job"][x] for x in r["job"] if x != "class"}, sort_keys=True)
+            m[k] = (r["log_digest"], r["evals"], json.dumps([[x["class"] for x in v["violations"]] for v in r["violations"]]), json.dumps(r["status"], sort_keys=True))
+        maps.append(m)
+    same = maps[0] == maps[1]
+    diff = [k for k in maps[0] if maps[0].get(k) != maps[1].get(k)]
+    out = {"jobs": len(jobs), "runs": sum(v[1] for v in maps[0].values() if v != "FATAL"), "layouts": [a.shards, 5], "identical": same, "differing_jobs": diff[:5]}
+    if not quiet:
+        print("SELFTEST determinism %s: %s" % (prop, json.dumps(out)))
+    return (0 if same else 2) if not quiet else out
+
+
 def classes_of(V):
     return sorted({v["class"] for v in V})
 
@@ -151,6 +180,7 @@ def main(argv=None):
     ap.add_argument("--limit", type=int, default=None, help="only the first N planned jobs (development)")
     ap.add_argument("--modes", default=None, help="comma separated job modes to keep (development)")
     ap.add_argument("--no-evidence", action="store_true")
+    ap.add_argument("--selftest", action="store_true", help="determinism self-test: the first --limit (default 200) jobs twice, with 16 and with 5 shards; event-log digests must agree")
     ap.add_argument("--verbose", action="store_true")
     a = ap.parse_args(argv)
     prop = a.prop.upper()
@@ -182,6 +212,8 @@ def main(argv=None):
 
     t0 = time.time()
     print("VERIF_SEED=%d tier=%s property=%s tree=%s" % (a.seed, a.tier, prop, REPO), flush=True)
+    if a.selftest:
+        return selftest(mod, prop, a, alt)
     jobs = mod.plan(a.tier, a.seed)
     if a.modes:
         keep = set(a.modes.split(","))
